@@ -40,7 +40,7 @@ def run_align(ck, tier, pid):
     try:
         parts = []
         b = os.path.join(work, "bounded.ndjson")
-        p = vlib.harness(["bounded", "-n", 40 if thorough else 5, "-len", 3, "-seed", ck.seed, "-out", b], cmd="valign")
+        p = vlib.harness(["bounded", "-n", 60 if thorough else 9, "-len", 3, "-seed", ck.seed, "-out", b], cmd="valign")
         parts.append(("bounded: all pairs of length <= 3 over 2 letters x random small matrices", b))
         rnd = os.path.join(work, "random.ndjson")
         vlib.harness(["random", "-n", 120 if thorough else 24, "-len", 60, "-seed", ck.seed, "-out", rnd], cmd="valign")
